@@ -81,19 +81,19 @@ Proof. intros [_ _ H _ _]. destruct (pc s); cbn in *; lia. Qed.
 
 Lemma init_inv wants : Inv (init wants).
 Proof.
-  constructor; cbn; auto.
-  - intros t. unfold next_of. cbn. rewrite nth_error_map. destruct (nth_error wants t); reflexivity.
-  - intros _ _ c [].
+  constructor; cbn; auto; try (intros _ _ c []).
+  intros t. unfold next_of. cbn. rewrite nth_error_map. destruct (nth_error wants t); reflexivity.
 Qed.
 
 Lemma prod_step_inv t s : Inv s -> Inv (prod_step t s).
 Proof.
   intros HI. pose proof (cnt_le s HI) as Hcnt. destruct HI as [Ha He Hp Ht Hn]. unfold prod_step.
+  unfold by_thread in Ht.
   destruct (nth_error (prods s) t) as [p|] eqn:Ep; [|constructor; assumption].
   destruct (inflight p) eqn:Ei.
   - (* wake *)
     constructor; cbn; auto; [|discriminate].
-    intros t'. rewrite Ht. unfold next_of. cbn.
+    intros t'. unfold by_thread. rewrite Ht. unfold next_of. cbn.
     destruct (Nat.eq_dec t t') as [<-|Hne].
     + rewrite (nth_error_upd_same _ _ _ _ Ep), Ep. reflexivity.
     + rewrite nth_error_upd_other by assumption. reflexivity.
@@ -104,7 +104,7 @@ Proof.
     + rewrite firstn_app_le by exact Hcnt. exact He.
     + destruct (pc s); auto; rewrite ?app_length; cbn; try lia.
       intros E. apply app_eq_nil in E. destruct E; discriminate.
-    + intros t'. unfold by_thread in *. rewrite filter_app, Ht. cbn. unfold next_of. cbn.
+    + intros t'. unfold by_thread. rewrite filter_app, Ht. cbn. unfold next_of. cbn.
       destruct (Nat.eq_dec t t') as [<-|Hne].
       * rewrite Nat.eqb_refl, (nth_error_upd_same _ _ _ _ Ep), Ep. cbn [next].
         rewrite seq_S, map_app. reflexivity.
@@ -124,17 +124,19 @@ Proof.
   destruct (pc s) as [| |total count|count| | | |] eqn:Epc; cbn [cnt] in *.
   - (* RTop *)
     destruct (queue s) as [|c q] eqn:Eq; constructor; cbn; rewrite ?Eq; auto; try discriminate.
-    intros _ _ c [].
+    all: try (intros _ _ c' []).
   - (* RLen *)
     constructor; cbn; auto. split; [|lia]. destruct (queue s); [congruence | cbn; lia].
   - (* RRun *)
     destruct Hp as [Hlt Hle].
     destruct (nth_error (queue s) count) as [c|] eqn:En.
-    + constructor; cbn; auto.
-      * destruct (Nat.eqb_spec (S count) total); cbn;
-          rewrite (firstn_S_nth _ _ _ En), app_assoc, <- He; reflexivity.
-      * destruct (Nat.eqb_spec (S count) total); cbn; lia.
-      * destruct (Nat.eqb (S count) total); cbn; discriminate.
+    + destruct (Nat.eqb_spec (S count) total) as [E|E].
+      * constructor; cbn [queue waker pc prods appended executed deleted cnt committed_to_sleep];
+          auto; try discriminate; try lia.
+        rewrite (firstn_S_nth _ _ _ En), app_assoc, <- He. reflexivity.
+      * constructor; cbn [queue waker pc prods appended executed deleted cnt committed_to_sleep];
+          auto; try discriminate; try lia.
+        rewrite (firstn_S_nth _ _ _ En), app_assoc, <- He. reflexivity.
     + constructor; rewrite ?Epc; cbn; auto. discriminate.
   - (* RDel *)
     constructor; cbn; auto.
@@ -143,7 +145,7 @@ Proof.
     + discriminate.
   - (* RCheck *)
     destruct (queue s) as [|c q] eqn:Eq; constructor; cbn; rewrite ?Eq; auto; try discriminate.
-    intros _ _ c [].
+    all: try (intros _ _ c' []).
   - (* RSleepPrep *)
     constructor; cbn; auto.
   - (* RSelect *)
